@@ -367,7 +367,7 @@ func init() {
 	}
 	strata = append(strata,
 		&fw.Stratum{Name: "vlq-large-magnitudes", Quick: 64, Thorough: 512, Run: runVLQLarge},
-		&fw.Stratum{Name: "histories", Quick: 20000, Thorough: 300000, Run: func(t *fw.T) {
+		&fw.Stratum{Name: "histories", Quick: 60000, Thorough: 400000, Run: func(t *fw.T) {
 			r := t.Rand()
 			max := 200
 			if t.Index%10 == 0 {
